@@ -22,6 +22,7 @@ import (
 	"os"
 	"os/exec"
 	"strings"
+	"time"
 
 	"go.dedis.ch/onet/v3/log"
 
@@ -94,7 +95,16 @@ func startChild() *child {
 	return &child{cmd, stdin, bufio.NewReaderSize(pr, 1<<20), tb}
 }
 
+var timing = map[string]time.Duration{}
+
 func run(raw json.RawMessage) lib.Case {
+	t0 := time.Now()
+	c := run1(raw)
+	timing[c.Class] += time.Since(t0)
+	return c
+}
+
+func run1(raw json.RawMessage) lib.Case {
 	if theChild == nil {
 		theChild = startChild()
 	}
@@ -157,5 +167,10 @@ func main() {
 	if theChild != nil {
 		theChild.stdin.Close()
 		theChild.cmd.Wait()
+	}
+	if os.Getenv("C03_TIMING") != "" {
+		for k, v := range timing {
+			fmt.Fprintf(os.Stderr, "%8.2fs %s\n", v.Seconds(), k)
+		}
 	}
 }
